@@ -126,7 +126,7 @@ def StartsStar (l : Bytes) : Prop := l = [] ∨ ∃ t, l = 42 :: t
 
 /-- command frames: well-formed arrays (what every client sends) -/
 def isCmd : Frame → Bool
-  | .array xs => wf (.array xs)
+  | .array xs => wf (.array xs) && decide ((Frame.array xs).depth ≤ maxNesting + 1)
   | _ => false
 
 theorem ser_cmd_head (f : Frame) (hf : isCmd f = true) : ∃ t, ser f = 42 :: t := by
@@ -146,8 +146,10 @@ theorem serList_cmds_startsStar (fs : List Frame) (hfs : ∀ f ∈ fs, isCmd f =
 theorem parserParse_cmd (f : Frame) (hf : isCmd f = true) (rest : Bytes) (hrest : rest.dropWhile isNl = rest) :
     parserParse true (ser f ++ rest) = (.frame f, rest) := by
   obtain ⟨t, ht⟩ := ser_cmd_head f hf
-  have hwf : wf f = true := by cases f <;> simp [isCmd] at hf ⊢; exact hf
-  have hrt := parseBytes_ser f hwf rest
+  have hwf : wf f = true ∧ f.depth ≤ maxNesting + 1 := by
+    cases f <;> simp [isCmd] at hf ⊢
+    exact hf
+  have hrt := parseBytes_ser f hwf.1 hwf.2 rest
   unfold parserParse
   rw [ht] at hrt ⊢
   simp only [List.cons_append]
